@@ -308,6 +308,7 @@ func runC06(c *Ctx) {
 	r.Doc("N6", "the base-path candidates (uncrowded) are exactly the registered priorities with actual < strategic", 2)
 	r.Doc("N7", "the 'allotment filled' predicate answers true exactly when every listed priority has a non-zero allotment", 2)
 	r.Doc("N10", "(= E2 registration) a newly registered channel starts not drained, so it is read", 1)
+	r.Doc("N12", "the may-proceed answer of a dividing function is the for-all over the list it just divided", 4)
 	r.Doc("N9", "(= P4) the pass over an input is left early only for lack of data, closure or stop", 4)
 	r.Doc("N8", "second-phase candidates: first the priorities that used up their allotment (tactic == 0), then those with actual < hypothetical share", 4)
 	for _, p := range []*Prog{c.V1, c.V2} {
@@ -327,6 +328,7 @@ func runC06(c *Ctx) {
 		checkN2(c, pr)
 		checkN2b(c, pr)
 		checkN78(c, pr)
+		checkN12(c, pr, "N12")
 		checkN3(c, pr)
 		subp := &Ctx{V1: c.V1, V2: c.V2, Tier: c.Tier, R: NewReport("tmp", c.Tier)}
 		checkB5(subp, pr, true)
@@ -1157,6 +1159,100 @@ func checkN2b(c *Ctx, pr *prioRoles) {
 			}
 			c.R.Check(okZero, "N2", fmt.Sprintf("%s#no-proceed.%d", p.FnKey(fn), n), p.InstrPos(ret), "cannot proceed only when vacants == 0", "the round-start calculation gives up although handlers may be vacant (not under vacants == 0): the scheduler then waits for a release that never comes when nothing is in flight")
 		}
+	}
+}
+
+// checkN12: the "may proceed" answer of a function that divides an allotment is "every priority
+// of the list just divided got something": the for-all is applied to the very list handed to the
+// last division before it. (Applied to another list - all registered priorities, say - it is
+// false whenever some priority outside the candidates has nothing, and the scheduler waits for a
+// release although handlers are vacant and data is waiting.)
+func checkN12(c *Ctx, pr *prioRoles, rule string) {
+	p := pr.p
+	listArg := func(call *ssa.Call) ssa.Value {
+		for i, a := range call.Call.Args {
+			if i == 0 && p.Callee(call) != nil && p.Callee(call).Signature.Recv() != nil {
+				continue
+			}
+			if sl, ok := a.Type().Underlying().(*types.Slice); ok {
+				if b, isB := sl.Elem().Underlying().(*types.Basic); isB && b.Kind() == types.Uint {
+					return a
+				}
+			}
+		}
+		return nil
+	}
+	isDivision := func(call *ssa.Call) bool {
+		cal := p.Callee(call)
+		if cal == nil || !p.IsProduct(cal) {
+			return false
+		}
+		if isCheckedDivision(cal) || isCheckedDivision(p.forwardsTo(cal)) {
+			return true
+		}
+		// a helper that divides the list it is given (divideTactic(list, quantity): reset; safeDivide(..., list, ...))
+		for _, b := range cal.Blocks {
+			for _, in := range b.Instrs {
+				if inner, ok := in.(*ssa.Call); ok && isCheckedDivision(p.Callee(inner)) && len(inner.Call.Args) == 4 {
+					if _, isPar := stripChangeType(inner.Call.Args[1]).(*ssa.Parameter); isPar {
+						return true
+					}
+				}
+			}
+		}
+		return false
+	}
+	n := 0
+	for _, fn := range pr.rt.Funcs {
+		var divs []*ssa.Call
+		for _, b := range fn.Blocks {
+			for _, in := range b.Instrs {
+				if call, ok := in.(*ssa.Call); ok && isDivision(call) {
+					divs = append(divs, call)
+				}
+			}
+		}
+		if len(divs) == 0 {
+			continue
+		}
+		for _, s := range p.resultSyms(fn, 0) {
+			fc, ok := s.V.(*ssa.Call)
+			if !ok || fc.Parent() != fn {
+				continue
+			}
+			cal := p.Callee(fc)
+			if cal == nil || !p.IsProduct(cal) || !returnsBoolOnly(cal) {
+				continue
+			}
+			fl := listArg(fc)
+			if fl == nil {
+				continue
+			}
+			var last *ssa.Call
+			for _, d := range divs {
+				if instrDominates(d, fc) && (last == nil || instrDominates(last, d)) {
+					last = d
+				}
+			}
+			n++
+			key := fmt.Sprintf("%s#filled-list.%d", p.FnKey(fn), n)
+			if last == nil {
+				c.R.Fail(rule, key, p.InstrPos(fc), "the allotment-filled test is not preceded by a division in "+fn.Name())
+				continue
+			}
+			dl := listArg(last)
+			same := dl != nil && p.Sym(dl).String() == p.Sym(fl).String()
+			c.R.Check(same, rule, key, p.InstrPos(fc), "for-all over the list just divided ("+p.Sym(fl).String()+")",
+				"the allotment-filled test looks at "+p.Sym(fl).String()+" but the division before it was made among "+func() string {
+					if dl == nil {
+						return "?"
+					}
+					return p.Sym(dl).String()
+				}()+": a priority outside the divided list has no allotment, so the answer is 'cannot proceed' and the scheduler waits for a release although handlers are vacant and data is waiting")
+		}
+	}
+	if n == 0 {
+		c.R.Fail(rule, p.Name+":priority#filled-list", "-", "UNRESOLVED-ANCHOR: no function returns an allotment-filled test after a division")
 	}
 }
 
